@@ -280,8 +280,10 @@ def run(ctx, replay_cases=None):
     ]
     ctx.assumptions = ["the byte->tree stage (yaml.v2) is library code: not verified, exercised by the raw-bytes stream for crashes only",
                        "theorems about `build` hold for every decoded definition and every value of the library parameters; "
-                       "the one hypothesis of the generic no-panic theorems (the cron library panics only on a bare TZ= prefix) is "
-                       "proved for the Cron model (coq/Loader/CronPlug.v); the premise of the one _partial theorem is the excluded "
+                       "hypotheses of the no-panic theorems: (1) the cron library panics only on a bare TZ= / CRON_TZ= prefix - proved "
+                       "for the Cron model (coq/Loader/CronPlug.v); (2) a parameter value matched by the quoted alternative of the "
+                       "tokenizer's regular expression holds its two quotes (the loader slices value[1:len-1]); `build` alone assumes "
+                       "no_nil d, which decode guarantees (C13_decode_no_nil); the premise of the one _partial theorem is the excluded "
                        "input class of the unrepaired defect F13f"]
     cron_agreement(ctx, trees)
     if ctx.tier == "thorough":
